@@ -156,7 +156,7 @@ def run_check(prop: str, tier: str) -> int:
             scns.append(dict(kf["regression_scenario"], family="ledger:" + kf["id"]))
     for i, scn in enumerate(scns):          # every third history: the manager is built by the command-line route (run_worker)
         if i % 3 == 1 and not str(scn.get("family", "")).startswith("ledger:"):
-            scn["cfg"] = dict(scn["cfg"], via="cli")
+            scn["cfg"] = dict(scn["cfg"], via="cli", reload=(i % 2 == 1))     # with --reload when there is one worker
         elif i % 4 == 3 and not str(scn.get("family", "")).startswith("ledger:"):
             scn["cfg"] = dict(scn["cfg"], reload=True)      # development mode (--reload): supervision rules are the same
     traces = mbt.drive("engine.pm_check", "_drive_one", scns)
